@@ -14,10 +14,19 @@ TAG_RE = re.compile(r'\[(C\d\d[\w.]*)\]')
 ENV = dict(os.environ, CARGO_NET_OFFLINE='true', CARGO_TERM_COLOR='never')
 
 
+MEM_LIMIT = int(os.environ.get('VERIF_MEM_GB', '20')) * (1 << 30)
+
+
+def _limit():
+    import resource
+    resource.setrlimit(resource.RLIMIT_AS, (MEM_LIMIT, MEM_LIMIT))
+
+
 def sh(cmd, cwd=None, timeout=None, env=None):
     t0 = time.time()
     try:
-        p = subprocess.run(cmd, cwd=cwd, env=env or ENV, capture_output=True, text=True, timeout=timeout)
+        p = subprocess.run(cmd, cwd=cwd, env=env or ENV, capture_output=True, text=True, timeout=timeout,
+                           preexec_fn=_limit if cmd[:2] == ['cargo', 'kani'] else None)
         return p.returncode, p.stdout + '\n' + p.stderr, time.time() - t0
     except subprocess.TimeoutExpired as e:
         out = (e.stdout or b'').decode(errors='replace') if isinstance(e.stdout, bytes) else (e.stdout or '')
@@ -33,6 +42,8 @@ def snapshot(repo, dest):
 
 
 def cleanup(workdir):
+    if os.environ.get('VERIF_KEEP'):
+        return
     shutil.rmtree(os.path.join(workdir, 'repo'), ignore_errors=True)
 
 
@@ -137,6 +148,9 @@ def analyse_body(body):
     else:
         d['status'] = 'undecided'
         d['reason'] = 'no verdict in output (time-out, out of memory or tool error)'
+    if 'CBMC timed out' in body or 'CBMC failed' in body and 'Failed Checks' not in body:
+        d['status'] = 'undecided'
+        d['reason'] = 'CBMC timed out / was killed (tool limit, not a verdict)'
     descs = []
     for fm in re.finditer(r'Failed Checks: (.*)\n(?:\s*File: "([^"]*)", line (\d+), in ([^\n]*))?', body):
         descs.append(dict(desc=fm.group(1).strip(), file=fm.group(2), line=fm.group(3), fn=fm.group(4)))
@@ -213,6 +227,8 @@ def run_units(pid, kspecs, repo, workdir, tier):
     for unit in kspecs:
         hs = [h for h in unit['harnesses'] if tier == 'thorough' or h.get('tier', 'quick') == 'quick']
         hs = [h for h in hs if pid in h.get('props', [pid]) or any(t.startswith(pid + '.') for t in h['tags'])]
+        if os.environ.get('VERIF_ONLY'):
+            hs = [h for h in hs if os.environ['VERIF_ONLY'] in h['name']]
         if not hs:
             continue
         for h in hs:
